@@ -31,7 +31,8 @@ def names_profile(env):
     p = Profile("names", env)
     m = p.m
     bs = [p.sym(n, BOOL) for n in WEIRD[:8]]
-    xs = [p.sym(n + "!i", INT) for n in WEIRD[8:10]] + [p.sym(".def_2", INT)]
+    # .def_0 (Bool), .def_1 and .def_2 (Int): consecutive let names of the DAG printer are taken
+    xs = [p.sym("Int!i", INT), p.sym(".def_1", INT), p.sym(".def_2", INT)]
     p.leaf(BOOL, *bs)
     p.leaf(INT, *xs)
     p.leaf(INT, m.Int(0))
